@@ -1,5 +1,696 @@
-import EnvVerif.Lemmas.Basic
+/-
+  Props/C18.lean — C18: expression, request, response and event envelopes round-trip.
+
+  "For any function (numeric or named), parameter list, identifier, note and date,
+  converting an Expression, Request, Response (success, failure, early failure) or Event to
+  an envelope and parsing it back - directly or through serialization - yields an equal
+  value, and the envelope has the documented shape.  Parsing rejects an envelope that has
+  both or neither of result and error, a wrongly tagged subject, or a function other than
+  the expected one."
+
+  The hash `h` is arbitrary.  What is assumed of it is stated as hypotheses, never as axioms:
+    * `KVDistinct h` — `h` has no collision among the six known values used as predicates
+      ('body' 100, 'note' 4, 'date' 16, 'result' 101, 'error' 102, 'content' 108);
+    * `DistinctDigests (reqAsserts h r)` (resp. `evAsserts`) — `h` has no collision among the
+      at most three assertions of the one request / event at hand.  The library drops an
+      assertion whose digest is already present, so without this a note or a date can vanish;
+      the hypothesis is per instance because a quantification over all objects would be false
+      for every real hash (2^256 objects per predicate against 2^256 digests).
+  Responses need `KVDistinct` only; expressions need nothing.
+
+  Dates: the model carries integral timestamps (`Option Int`).  Dates with a fractional
+  second go through `f64` in the `dcbor` dependency and do not survive; they are outside the
+  model and recorded as a known finding (F9).  The request / event round trips below are
+  full-strength for the model's value type.
+
+  Definitions used in the statements (Lemmas/ExprLemmas.lean, namespace `ExprL`):
+  `kvA h k o` = the assertion `newAssertion h (newKnownValue h k) o`;
+  `paramA h (p, v)` = `newAssertion h (newLeaf h (identCbor TAG_PARAMETER p)) v`;
+  `withParams h x ps` = `with_parameter` applied for each `(p, v)` of `ps` in order;
+  `reqAsserts h r` = ['body': `r.body.envelope`] ++ ['note': text, if non-empty] ++
+  ['date': date, if present]; `evAsserts` likewise with 'content';
+  `idSubject h tag id` = `newLeaf h (#6.tag(#6.40012(id)))`;
+  `respSubject`, `respAssert` = subject and single assertion of a response envelope;
+  `AW.rebuild h s as` = `s` when `as = []`, else the node `s [as]` with the recomputed digest.
+-/
+import EnvVerif.Lemmas.ExprLemmas
+import EnvVerif.Props.C05
 namespace EnvVerif
-/-- placeholder while the property theorems are being written -/
-theorem c18_sort_asc_id {as : List Env} (hs : AscDigests as) : sortByDigest as = as := sortByDigest_of_asc hs
+open Env AW ExprL
+
+/-! ### 1. leaf codecs -/
+
+/-- functions and parameters (numeric or named) decode from their CBOR -/
+theorem identOfCbor_identCbor (tag : Nat) (i : Ident) :
+    identOfCbor? tag (identCbor tag i) = some i := by
+  cases i <;> simp [identCbor, identOfCbor?]
+
+/-- the encoding determines the tag and the identifier -/
+theorem identCbor_injective {t1 t2 : Nat} {i j : Ident} (heq : identCbor t1 i = identCbor t2 j) :
+    t1 = t2 ∧ i = j := by
+  cases i <;> cases j <;> simp [identCbor] at heq ⊢ <;> exact heq
+example : (2 : Nat) = 2 ∧ Ident.known 7 = Ident.known 7 := identCbor_injective rfl
+
+/-- a numeric function and a named function never coincide, whatever the name -/
+theorem known_vs_named_distinct (tag v : Nat) (n : Bytes) :
+    identCbor tag (.known v) ≠ identCbor tag (.named n) := by
+  simp [identCbor]
+
+/-- an identifier under one tag is not read under another -/
+theorem ident_other_tag_rejected {t t' : Nat} (i : Ident) (ht : t ≠ t') :
+    identOfCbor? t' (identCbor t i) = none := by
+  cases i <;> simp [identCbor, identOfCbor?, ht]
+example : identOfCbor? 5 (identCbor 6 (.named [97])) = none := ident_other_tag_rejected _ (by decide)
+
+/-- functions and parameters use distinct tags -/
+theorem function_parameter_tags_distinct (i : Ident) :
+    identOfCbor? TAG_PARAMETER (identCbor TAG_FUNCTION i) = none ∧
+    identOfCbor? TAG_FUNCTION (identCbor TAG_PARAMETER i) = none :=
+  ⟨ident_other_tag_rejected i (by decide), ident_other_tag_rejected i (by decide)⟩
+
+theorem aridOfCbor_aridCbor {id : Bytes} (hid : id.length = 32) :
+    aridOfCbor? (aridCbor id) = some id := by
+  simp [aridCbor, aridOfCbor?, hid]
+example : aridOfCbor? (aridCbor Toy.id0) = some Toy.id0 := aridOfCbor_aridCbor (by decide)
+
+/-- an identifier that is not 32 bytes long is not an ARID -/
+theorem aridOfCbor_rejects_length {id : Bytes} (hid : id.length ≠ 32) :
+    aridOfCbor? (aridCbor id) = none := by
+  simp [aridCbor, aridOfCbor?, hid]
+example : aridOfCbor? (aridCbor [1, 2, 3]) = none := aridOfCbor_rejects_length (by decide)
+
+/-- integral dates, negative ones included -/
+theorem dateOfCbor_dateCbor (d : Int) : dateOfCbor? (dateCbor d) = some d := by
+  unfold dateCbor
+  split <;> simp [dateOfCbor?, TAG_DATE] <;> omega
+
+/-! ### 2. expressions -/
+
+/-- building an expression never fails -/
+theorem expression_build_ok (h : Hash) (f : Ident) (ps : List (Ident × Env)) :
+    ∃ x, withParams h (Expression.new h f) ps = .ok x :=
+  ⟨_, withParams_new h f ps⟩
+
+/-- **round trip**: parsing the envelope of an expression built from `f` and any parameter
+list gives back the expression (its function, and the envelope itself) -/
+theorem expression_roundtrip (h : Hash) (f : Ident) (ps : List (Ident × Env)) (x : Expression)
+    (hx : withParams h (Expression.new h f) ps = .ok x) :
+    Expression.parse x.envelope = .ok ⟨f, x.envelope⟩ ∧ x.function = f ∧
+      Expression.parse x.envelope = .ok x := by
+  rw [withParams_new] at hx
+  injection hx with hx
+  subst hx
+  simp [Expression.parse, fnSubject, newLeaf, subjectLeaf_rebuild, identOfCbor_identCbor]
+example : Expression.parse Toy.x0.envelope = .ok Toy.x0 :=
+  (expression_roundtrip Toy.h0 (.known 1) Toy.params0 Toy.x0 (withParams_new _ _ _)).2.2
+
+/-- **shape**: the subject is the leaf `❰f❱`; the stored assertions are strictly ascending by
+digest and are, for each digest occurring among the parameter assertions
+`❰p❱: v`, the first one carrying it (repetitions are dropped); the node digest is the
+recomputed one (and there is no node when there are no parameters). -/
+theorem expression_shape (h : Hash) (f : Ident) (ps : List (Ident × Env)) (x : Expression)
+    (hx : withParams h (Expression.new h f) ps = .ok x) :
+    x.envelope.subject = newLeaf h (identCbor TAG_FUNCTION f) ∧
+    AscDigests x.envelope.assertions ∧
+    (∀ a, a ∈ x.envelope.assertions ↔
+      (ps.map (paramA h)).find? (fun b => b.digest == a.digest) = some a) ∧
+    x.envelope = rebuild h (newLeaf h (identCbor TAG_FUNCTION f)) x.envelope.assertions ∧
+    (x.envelope.assertions = [] ↔ ps = []) := by
+  rw [withParams_new] at hx
+  injection hx with hx
+  subst hx
+  have hs : (fnSubject h f).isNode = false := rfl
+  simp only [rebuild_subject h _ hs, rebuild_assertions h _ hs]
+  refine ⟨rfl, foldl_normAdd_asc _ List.Pairwise.nil, ?_, rfl, ?_⟩
+  · intro a
+    rw [mem_foldl_normAdd_first]
+    simp
+  · constructor
+    · intro hnil
+      cases ps with
+      | nil => rfl
+      | cons pv ps =>
+        exact absurd hnil (foldl_normAdd_ne_nil _ (Or.inr (by simp)))
+    · intro hnil; subst hnil; rfl
+
+/-- ... and when the parameter assertions have pairwise different digests, all of them are
+stored -/
+theorem expression_shape_distinct (h : Hash) (f : Ident) (ps : List (Ident × Env)) (x : Expression)
+    (hx : withParams h (Expression.new h f) ps = .ok x)
+    (hd : DistinctDigests (ps.map (paramA h))) :
+    x.envelope.assertions.Perm (ps.map (paramA h)) := by
+  rw [withParams_new] at hx
+  injection hx with hx
+  subst hx
+  have hs : (fnSubject h f).isNode = false := rfl
+  simp only [rebuild_assertions h _ hs]
+  simpa using foldl_normAdd_perm_of_distinct (ps.map (paramA h)) (as := []) List.Pairwise.nil
+    (by simpa using hd)
+set_option maxRecDepth 10000 in
+example : DistinctDigests ((Toy.params0.take 2).map (paramA Toy.h0)) := by decide
+
+/-- **through serialization** (C05): the envelope of an expression whose parts are well formed
+and encodable decodes from its bytes to itself, hence parses to the expression -/
+theorem expression_roundtrip_bytes (h : Hash) (f : Ident) (ps : List (Ident × Env)) (x : Expression)
+    (hx : withParams h (Expression.new h f) ps = .ok x) (hf : IdentValid f)
+    (hv : ∀ pv ∈ ps, IdentValid pv.1 ∧ Inv h pv.2 ∧ EncShape pv.2 ∧ Encodable pv.2)
+    (hlen : ps.length + 1 < 2 ^ 64) :
+    decode h (encode x.envelope) = .ok x.envelope ∧ Expression.parse x.envelope = .ok x := by
+  refine ⟨?_, (expression_roundtrip h f ps x hx).2.2⟩
+  rw [withParams_new] at hx
+  injection hx with hx
+  subst hx
+  obtain ⟨hi, hs⟩ := exprEnv_wellformed (h := h) (f := f) (ps := ps)
+    (fun pv hpv => ⟨(hv pv hpv).2.1, (hv pv hpv).2.2.1⟩)
+  have he := exprEnv_encodable (h := h) (f := f) (ps := ps) hf
+    (fun pv hpv => ⟨(hv pv hpv).1, (hv pv hpv).2.2.2⟩) hlen
+  exact decode_encode h _ hi hs he
+example : decode Toy.h0 (encode Toy.x0.envelope) = .ok Toy.x0.envelope :=
+  (expression_roundtrip_bytes Toy.h0 (.known 1) Toy.params0 Toy.x0 (withParams_new _ _ _)
+    (by simp only [IdentValid]; omega)
+    (by
+      intro pv hpv
+      simp only [Toy.params0, List.mem_cons, List.not_mem_nil, or_false] at hpv
+      rcases hpv with rfl | rfl | rfl <;>
+        simp [IdentValid, Cbor.Valid, Cbor.utf8Valid, Encodable, EncShape, newLeaf, Inv, WF, Canon])
+    (by decide)).1
+
+/-- parsing with an expected function only ever returns that function -/
+theorem rejects_other_function (e : Env) (g : Ident) (x : Expression)
+    (hp : Expression.parseExpecting e (some g) = .ok x) : x.function = g := by
+  unfold Expression.parseExpecting at hp
+  obtain ⟨y, _, hy⟩ := bind_eq_ok.1 hp
+  simp only [] at hy
+  split at hy
+  · rename_i hfg
+    injection hy with hy
+    subst hy
+    exact hfg
+  · cases hy
+
+/-- an expression with function `f` is rejected when `g ≠ f` is expected (numeric against
+named included), accepted when `f` or nothing is expected -/
+theorem expression_rejects_other_function (h : Hash) (f g : Ident) (ps : List (Ident × Env))
+    (x : Expression) (hx : withParams h (Expression.new h f) ps = .ok x) :
+    (f ≠ g → Expression.parseExpecting x.envelope (some g) = .err "dep:unexpected-function") ∧
+    Expression.parseExpecting x.envelope (some f) = .ok x ∧
+    Expression.parseExpecting x.envelope none = .ok x := by
+  obtain ⟨_, hf, hp⟩ := expression_roundtrip h f ps x hx
+  unfold Expression.parseExpecting
+  simp only [hp, Res.bind, hf, if_true]
+  exact ⟨fun hfg => by simp [hfg], trivial, trivial⟩
+example : Expression.parseExpecting Toy.x0.envelope (some (.named [49])) = .err "dep:unexpected-function" :=
+  (expression_rejects_other_function Toy.h0 (.known 1) (.named [49]) Toy.params0 Toy.x0
+    (withParams_new _ _ _)).1 (by decide)
+example : Toy.x0.function = .known 1 :=
+  rejects_other_function Toy.x0.envelope (.known 1) Toy.x0
+    (expression_rejects_other_function Toy.h0 (.known 1) (.known 1) Toy.params0 Toy.x0
+      (withParams_new _ _ _)).2.1
+
+/-! ### 3. requests -/
+
+/-- `Envelope::from(Request)` never fails -/
+theorem request_toEnvelope_ok (h : Hash) (r : Request) : ∃ e, Request.toEnvelope h r = .ok e :=
+  ⟨_, request_toEnvelope_eq h r⟩
+
+/-- **round trip** (note empty or not, date absent or present, negative included): the parsed
+request equals the original — identifier, note, date, and the body with its function and
+envelope.  `hb` says the body is a genuine expression (its function is the one in its
+envelope), which `expression_roundtrip` establishes for every expression the library builds.
+Fractional dates are outside the model (see the header). -/
+theorem request_roundtrip (h : Hash) (kv : KVDistinct h) (r : Request) (e : Env)
+    (hd : DistinctDigests (reqAsserts h r)) (hid : r.id.length = 32)
+    (hb : Expression.parse r.body.envelope = .ok r.body)
+    (he : Request.toEnvelope h r = .ok e) :
+    Request.parse h e none = .ok r ∧ Request.parse h e (some r.body.function) = .ok r := by
+  rw [request_toEnvelope_eq] at he
+  injection he with he
+  subst he
+  have hs : (idSubject h TAG_REQUEST r.id).isNode = false := rfl
+  have hperm : (rebuild h (idSubject h TAG_REQUEST r.id)
+      ((reqAsserts h r).foldl normAdd [])).assertions.Perm (reqAsserts h r) := by
+    rw [rebuild_assertions h _ hs]
+    simpa using foldl_normAdd_perm_of_distinct (reqAsserts h r) (as := []) List.Pairwise.nil
+      (by simpa using hd)
+  exact ⟨request_parse_of_shape kv r _ none (rebuild_subject h _ hs) hperm hid hb (by simp),
+    request_parse_of_shape kv r _ _ (rebuild_subject h _ hs) hperm hid hb
+      (by intro g hg; injection hg with hg; exact hg.symm)⟩
+/-- with the toy hash every request (32-byte id, genuine body) meets the hypotheses -/
+example (r : Request) (hid : r.id.length = 32) (hb : Expression.parse r.body.envelope = .ok r.body) :
+    ∃ e, Request.toEnvelope Toy.h0 r = .ok e ∧ Request.parse Toy.h0 e none = .ok r := by
+  obtain ⟨e, he⟩ := request_toEnvelope_ok Toy.h0 r
+  exact ⟨e, he, (request_roundtrip Toy.h0 Toy.kv0 r e (Toy.h0_req_distinct r) hid hb he).1⟩
+/-- parameters, a note and a negative date -/
+example : ∃ e, Request.toEnvelope Toy.h0 Toy.r0 = .ok e ∧ Request.parse Toy.h0 e none = .ok Toy.r0 := by
+  obtain ⟨e, he⟩ := request_toEnvelope_ok Toy.h0 Toy.r0
+  exact ⟨e, he, (request_roundtrip Toy.h0 Toy.kv0 Toy.r0 e (Toy.h0_req_distinct _) (by decide)
+    (expression_roundtrip Toy.h0 (.known 1) Toy.params0 Toy.x0 (withParams_new _ _ _)).2.2 he).1⟩
+/-- no parameters, no note, no date -/
+example : ∃ e, Request.toEnvelope Toy.h0 Toy.r1 = .ok e ∧ Request.parse Toy.h0 e none = .ok Toy.r1 := by
+  obtain ⟨e, he⟩ := request_toEnvelope_ok Toy.h0 Toy.r1
+  exact ⟨e, he, (request_roundtrip Toy.h0 Toy.kv0 Toy.r1 e (Toy.h0_req_distinct _) (by decide)
+    (expression_roundtrip Toy.h0 (.named [102]) [] _ rfl).2.2 he).1⟩
+
+/-- **shape**: the subject is the leaf `#6.40004(#6.40012(id))`; the assertions are exactly
+'body': the expression envelope, 'note': the text iff the note is non-empty, 'date': the date
+iff present — strictly ascending by digest, under the recomputed node digest -/
+theorem request_shape (h : Hash) (r : Request) (e : Env)
+    (hd : DistinctDigests (reqAsserts h r)) (he : Request.toEnvelope h r = .ok e) :
+    e.subject = newLeaf h (.tagged TAG_REQUEST (aridCbor r.id)) ∧
+    (∀ a, a ∈ e.assertions ↔
+      a = newAssertion h (newKnownValue h KV_BODY) r.body.envelope ∨
+      (r.note ≠ [] ∧ a = newAssertion h (newKnownValue h KV_NOTE) (newLeaf h (.text r.note))) ∨
+      (∃ d, r.date = some d ∧ a = newAssertion h (newKnownValue h KV_DATE) (newLeaf h (dateCbor d)))) ∧
+    e.assertions.length = 1 + (if r.note = [] then 0 else 1) + (if r.date.isSome then 1 else 0) ∧
+    AscDigests e.assertions ∧
+    e.digest = h.ofDigests (e.subject.digest :: e.assertions.map Env.digest) := by
+  rw [request_toEnvelope_eq] at he
+  injection he with he
+  subst he
+  have hs : (idSubject h TAG_REQUEST r.id).isNode = false := rfl
+  have hperm : ((reqAsserts h r).foldl normAdd []).Perm (reqAsserts h r) := by
+    simpa using foldl_normAdd_perm_of_distinct (reqAsserts h r) (as := []) List.Pairwise.nil
+      (by simpa using hd)
+  rw [rebuild_subject h _ hs, rebuild_assertions h _ hs,
+    rebuild_digest h (foldl_normAdd_ne_nil _ (Or.inr (by simp [reqAsserts])))]
+  refine ⟨rfl, ?_, ?_, foldl_normAdd_asc _ List.Pairwise.nil, rfl⟩
+  · intro a
+    rw [hperm.mem_iff]
+    simp only [reqAsserts, List.mem_cons, mem_metaAsserts_iff, kvA]
+  · rw [hperm.length_eq]
+    simp only [reqAsserts, List.length_cons, metaAsserts_length]
+    omega
+example (r : Request) : ∃ e, Request.toEnvelope Toy.h0 r = .ok e ∧
+    e.subject = newLeaf Toy.h0 (.tagged TAG_REQUEST (aridCbor r.id)) ∧ AscDigests e.assertions := by
+  obtain ⟨e, he⟩ := request_toEnvelope_ok Toy.h0 r
+  obtain ⟨h1, _, _, h4, _⟩ := request_shape Toy.h0 r e (Toy.h0_req_distinct r) he
+  exact ⟨e, he, h1, h4⟩
+
+/-- **through serialization** (C05): with a well-formed, encodable body, a UTF-8 note and a
+date that fits in 64 bits, the request envelope decodes from its bytes to itself, hence
+parses to the request -/
+theorem request_roundtrip_bytes (h : Hash) (kv : KVDistinct h) (r : Request) (e : Env)
+    (hd : DistinctDigests (reqAsserts h r)) (hid : r.id.length = 32)
+    (hb : Expression.parse r.body.envelope = .ok r.body)
+    (hi : Inv h r.body.envelope) (hs : EncShape r.body.envelope) (hen : Encodable r.body.envelope)
+    (hm : MetaEncodable r.note r.date)
+    (he : Request.toEnvelope h r = .ok e) :
+    decode h (encode e) = .ok e ∧ Request.parse h e none = .ok r := by
+  refine ⟨?_, (request_roundtrip h kv r e hd hid hb he).1⟩
+  rw [request_toEnvelope_eq] at he
+  injection he with he
+  subst he
+  obtain ⟨h1, h2⟩ := chain_wellformed (h := h) (tag := TAG_REQUEST) (k := KV_BODY) (id := r.id)
+    (note := r.note) (date := r.date) hi hs
+  have h3 := chain_encodable (h := h) (tag := TAG_REQUEST) (k := KV_BODY) (note := r.note)
+    (date := r.date) (by decide) (by decide) hid hen hm
+  exact decode_encode h _ h1 h2 h3
+example : ∃ e, Request.toEnvelope Toy.h0 Toy.r1 = .ok e ∧ decode Toy.h0 (encode e) = .ok e := by
+  obtain ⟨e, he⟩ := request_toEnvelope_ok Toy.h0 Toy.r1
+  refine ⟨e, he, (request_roundtrip_bytes Toy.h0 Toy.kv0 Toy.r1 e (Toy.h0_req_distinct _) (by decide)
+    (expression_roundtrip Toy.h0 (.named [102]) [] _ rfl).2.2 (inv_leaf _ _)
+    (by simp only [Toy.r1, Expression.new, newLeaf, EncShape]) ?_ ?_ he).1⟩
+  · simp [Toy.r1, Expression.new, newLeaf, Encodable, identCbor, Cbor.Valid, Cbor.utf8Valid, TAG_FUNCTION]
+  · simp [MetaEncodable, Toy.r1, Cbor.Valid, Cbor.utf8Valid]
+
+/-- a request whose body has function `f` is rejected when another function is expected -/
+theorem request_rejects_other_function (h : Hash) (kv : KVDistinct h) (r : Request) (e : Env)
+    (g : Ident) (hd : DistinctDigests (reqAsserts h r))
+    (hb : Expression.parse r.body.envelope = .ok r.body)
+    (he : Request.toEnvelope h r = .ok e) (hg : r.body.function ≠ g) :
+    Request.parse h e (some g) = .err "dep:unexpected-function" := by
+  rw [request_toEnvelope_eq] at he
+  injection he with he
+  subst he
+  have hs : (idSubject h TAG_REQUEST r.id).isNode = false := rfl
+  have hperm : (rebuild h (idSubject h TAG_REQUEST r.id)
+      ((reqAsserts h r).foldl normAdd [])).assertions.Perm (reqAsserts h r) := by
+    rw [rebuild_assertions h _ hs]
+    simpa using foldl_normAdd_perm_of_distinct (reqAsserts h r) (as := []) List.Pairwise.nil
+      (by simpa using hd)
+  unfold Request.parse
+  rw [ofp_first kv hperm (by decide) (by decide) (by decide)]
+  simp [Res.bind, Expression.parseExpecting, hb, hg]
+example : ∃ e, Request.toEnvelope Toy.h0 Toy.r1 = .ok e ∧
+    Request.parse Toy.h0 e (some (.known 9)) = .err "dep:unexpected-function" := by
+  obtain ⟨e, he⟩ := request_toEnvelope_ok Toy.h0 Toy.r1
+  exact ⟨e, he, request_rejects_other_function Toy.h0 Toy.kv0 Toy.r1 e (.known 9) (Toy.h0_req_distinct _)
+    (expression_roundtrip Toy.h0 (.named [102]) [] _ rfl).2.2 he (by decide)⟩
+
+/-- whatever parses as a request has the subject `#6.40004(#6.40012(id))` with a 32-byte id -/
+theorem request_parse_subject (h : Hash) (e : Env) (exp : Option Ident) (r : Request)
+    (hp : Request.parse h e exp = .ok r) :
+    ∃ d, e.subject = .leaf (.tagged TAG_REQUEST (aridCbor r.id)) d ∧ r.id.length = 32 := by
+  obtain ⟨_, _, _, hid, _, _⟩ := request_parse_inv hp
+  exact subjectArid_ok_inv hid
+example : ∃ (e : Env) (d : Digest), e.subject = .leaf (.tagged TAG_REQUEST (aridCbor Toy.r1.id)) d := by
+  obtain ⟨e, he⟩ := request_toEnvelope_ok Toy.h0 Toy.r1
+  obtain ⟨d, hd, _⟩ := request_parse_subject Toy.h0 e none Toy.r1
+    (request_roundtrip Toy.h0 Toy.kv0 Toy.r1 e (Toy.h0_req_distinct _) (by decide)
+      (expression_roundtrip Toy.h0 (.named [102]) [] _ rfl).2.2 he).1
+  exact ⟨e, d, hd⟩
+
+/-- a subject under any other tag is rejected -/
+theorem request_rejects_wrong_tag (h : Hash) (e : Env) (exp : Option Ident) (t : Nat) (inner : Cbor)
+    (d : Digest) (hsub : e.subject = .leaf (.tagged t inner) d) (ht : t ≠ TAG_REQUEST) :
+    ∃ m, Request.parse h e exp = .err m := by
+  refine res_err_of_not_ok (request_parse_noPanic h e exp) ?_
+  intro r hp
+  obtain ⟨_, _, _, hid, _, _⟩ := request_parse_inv hp
+  rw [subjectArid_wrong_tag hsub ht] at hid
+  cases hid
+example : ∃ m, Request.parse Toy.h0 (idSubject Toy.h0 TAG_RESPONSE Toy.id0) none = .err m :=
+  request_rejects_wrong_tag _ _ _ TAG_RESPONSE _ _ rfl (by decide)
+
+/-- no 'body' assertion: rejected -/
+theorem request_rejects_missing_body (h : Hash) (e : Env) (exp : Option Ident)
+    (hnb : assertionsWithPredicate e (newKnownValue h KV_BODY) = []) :
+    Request.parse h e exp = .err "NonexistentPredicate" := by
+  simp [Request.parse, objectForPredicate, assertionWithPredicate, hnb, Res.bind]
+example : Request.parse Toy.h0 (idSubject Toy.h0 TAG_REQUEST Toy.id0) none = .err "NonexistentPredicate" :=
+  request_rejects_missing_body _ _ _ rfl
+
+/-! ### 4. responses -/
+
+/-- `Envelope::from(Response)` never fails -/
+theorem response_toEnvelope_ok (h : Hash) (v : Response) : ∃ e, Response.toEnvelope h v = .ok e :=
+  ⟨_, response_toEnvelope_eq h v⟩
+
+/-- **round trip** for success (any result envelope), failure with an identifier and early
+failure (no identifier): the parsed response is the original one -/
+theorem response_roundtrip (h : Hash) (kv : KVDistinct h) (v : Response) (e : Env)
+    (hid : Response.idOk v) (he : Response.toEnvelope h v = .ok e) :
+    Response.parse h e = .ok v := by
+  rw [response_toEnvelope_eq] at he
+  injection he with he
+  subst he
+  have hs : (respSubject h v).isNode = false := by
+    cases v with
+    | success id r => rfl
+    | failure id er => cases id <;> rfl
+  exact response_parse_of_shape kv v _ (rebuild_subject h _ hs) (rebuild_assertions h _ hs) hid
+example (res : Env) : ∃ e, Response.toEnvelope Toy.h0 (.success Toy.id0 res) = .ok e ∧
+    Response.parse Toy.h0 e = .ok (.success Toy.id0 res) := by
+  obtain ⟨e, he⟩ := response_toEnvelope_ok Toy.h0 (.success Toy.id0 res)
+  exact ⟨e, he, response_roundtrip Toy.h0 Toy.kv0 _ e (by decide : Toy.id0.length = 32) he⟩
+example (er : Env) : ∃ e, Response.toEnvelope Toy.h0 (.failure (some Toy.id0) er) = .ok e ∧
+    Response.parse Toy.h0 e = .ok (.failure (some Toy.id0) er) := by
+  obtain ⟨e, he⟩ := response_toEnvelope_ok Toy.h0 (.failure (some Toy.id0) er)
+  exact ⟨e, he, response_roundtrip Toy.h0 Toy.kv0 _ e (by decide : Toy.id0.length = 32) he⟩
+example (er : Env) : ∃ e, Response.toEnvelope Toy.h0 (.failure none er) = .ok e ∧
+    Response.parse Toy.h0 e = .ok (.failure none er) := by
+  obtain ⟨e, he⟩ := response_toEnvelope_ok Toy.h0 (.failure none er)
+  exact ⟨e, he, response_roundtrip Toy.h0 Toy.kv0 _ e trivial he⟩
+
+/-- **shape**: subject `#6.40005(#6.40012(id))`, or `#6.40005('Unknown')` for an early
+failure; exactly one assertion, 'result': result or 'error': error -/
+theorem response_shape (h : Hash) (v : Response) (e : Env) (he : Response.toEnvelope h v = .ok e) :
+    e.subject = respSubject h v ∧ e.assertions = [respAssert h v] ∧
+    e.digest = h.ofDigests [(respSubject h v).digest, (respAssert h v).digest] ∧
+    (∀ id r, v = .success id r →
+      e.subject = newLeaf h (.tagged TAG_RESPONSE (aridCbor id)) ∧
+      e.assertions = [newAssertion h (newKnownValue h KV_RESULT) r]) ∧
+    (∀ id er, v = .failure (some id) er →
+      e.subject = newLeaf h (.tagged TAG_RESPONSE (aridCbor id)) ∧
+      e.assertions = [newAssertion h (newKnownValue h KV_ERROR) er]) ∧
+    (∀ er, v = .failure none er →
+      e.subject = newLeaf h (.tagged TAG_RESPONSE (knownValueCbor KV_UNKNOWN)) ∧
+      e.assertions = [newAssertion h (newKnownValue h KV_ERROR) er]) := by
+  rw [response_toEnvelope_eq] at he
+  injection he with he
+  subst he
+  have hs : (respSubject h v).isNode = false := by
+    cases v with
+    | success id r => rfl
+    | failure id er => cases id <;> rfl
+  rw [rebuild_subject h _ hs, rebuild_assertions h _ hs]
+  refine ⟨rfl, rfl, rfl, ?_, ?_, ?_⟩
+  · rintro id r rfl; exact ⟨rfl, rfl⟩
+  · rintro id er rfl; exact ⟨rfl, rfl⟩
+  · rintro er rfl; exact ⟨rfl, rfl⟩
+
+/-- **through serialization** (C05) -/
+theorem response_roundtrip_bytes (h : Hash) (kv : KVDistinct h) (v : Response) (e : Env)
+    (hid : Response.idOk v) (hi : Inv h (Response.payload v)) (hs : EncShape (Response.payload v))
+    (hen : Encodable (Response.payload v)) (he : Response.toEnvelope h v = .ok e) :
+    decode h (encode e) = .ok e ∧ Response.parse h e = .ok v := by
+  refine ⟨?_, response_roundtrip h kv v e hid he⟩
+  rw [response_toEnvelope_eq] at he
+  injection he with he
+  subst he
+  obtain ⟨h1, h2, h3⟩ := response_wellformed hid hi hs hen
+  exact decode_encode h _ h1 h2 h3
+example : ∃ e, Response.toEnvelope Toy.h0 (.success Toy.id0 (newLeaf Toy.h0 (.uint 1))) = .ok e ∧
+    decode Toy.h0 (encode e) = .ok e := by
+  obtain ⟨e, he⟩ := response_toEnvelope_ok Toy.h0 (.success Toy.id0 (newLeaf Toy.h0 (.uint 1)))
+  exact ⟨e, he, (response_roundtrip_bytes Toy.h0 Toy.kv0 (.success Toy.id0 (newLeaf Toy.h0 (.uint 1))) e
+    (by decide : Toy.id0.length = 32)
+    (inv_leaf _ _) (by simp only [Response.payload, newLeaf, EncShape])
+    (by simp [Response.payload, newLeaf, Encodable, Cbor.Valid]) he).1⟩
+
+/-- **both** a result and an error — however many of each (a repeated result or error used to
+hide the other kind: the defect that was repaired) — is rejected -/
+theorem response_rejects_both (h : Hash) (e : Env)
+    (hr : assertionsWithPredicate e (newKnownValue h KV_RESULT) ≠ [])
+    (her : assertionsWithPredicate e (newKnownValue h KV_ERROR) ≠ []) :
+    Response.parse h e = .err "dep:invalid-response-both-or-neither" := by
+  have h1 : (assertionsWithPredicate e (newKnownValue h KV_RESULT)).isEmpty = false := by
+    cases hl : assertionsWithPredicate e (newKnownValue h KV_RESULT) with
+    | nil => exact absurd hl hr
+    | cons a t => rfl
+  have h2 : (assertionsWithPredicate e (newKnownValue h KV_ERROR)).isEmpty = false := by
+    cases hl : assertionsWithPredicate e (newKnownValue h KV_ERROR) with
+    | nil => exact absurd hl her
+    | cons a t => rfl
+  simp [Response.parse, h1, h2]
+/-- two results and one error under a response subject -/
+example : Response.parse Toy.h0
+    (.node (idSubject Toy.h0 TAG_RESPONSE Toy.id0)
+      [kvA Toy.h0 KV_RESULT (newLeaf Toy.h0 (.uint 1)), kvA Toy.h0 KV_RESULT (newLeaf Toy.h0 (.uint 2)),
+       kvA Toy.h0 KV_ERROR (newLeaf Toy.h0 (.uint 3))] ⟨0⟩)
+    = .err "dep:invalid-response-both-or-neither" :=
+  response_rejects_both _ _ (by decide) (by decide)
+
+/-- **neither** a result nor an error is rejected -/
+theorem response_rejects_neither (h : Hash) (e : Env)
+    (hr : assertionsWithPredicate e (newKnownValue h KV_RESULT) = [])
+    (her : assertionsWithPredicate e (newKnownValue h KV_ERROR) = []) :
+    Response.parse h e = .err "dep:invalid-response-both-or-neither" := by
+  simp [Response.parse, hr, her]
+example : Response.parse Toy.h0 (idSubject Toy.h0 TAG_RESPONSE Toy.id0)
+    = .err "dep:invalid-response-both-or-neither" :=
+  response_rejects_neither _ _ rfl rfl
+
+/-- a subject under any tag other than 40005 is rejected -/
+theorem response_rejects_wrong_tag (h : Hash) (e : Env) (t : Nat) (inner : Cbor) (d : Digest)
+    (hsub : e.subject = .leaf (.tagged t inner) d) (ht : t ≠ TAG_RESPONSE) :
+    ∃ m, Response.parse h e = .err m := by
+  have hs := subjectArid_wrong_tag (tag := TAG_RESPONSE) hsub ht
+  unfold Response.parse
+  simp only [hs, hsub]
+  split
+  · exact ⟨_, rfl⟩
+  · split
+    · exact ⟨_, rfl⟩
+    · split
+      · simp [ht]
+      · exact ⟨_, rfl⟩
+example : ∃ m, Response.parse Toy.h0 (idSubject Toy.h0 TAG_REQUEST Toy.id0) = .err m :=
+  response_rejects_wrong_tag _ _ TAG_REQUEST _ _ rfl (by decide)
+
+/-- a known value other than 'Unknown' in the place of the identifier is rejected -/
+theorem response_rejects_unknown_known_value_subject (h : Hash) (e : Env) (v : Nat) (d : Digest)
+    (hsub : e.subject = .leaf (.tagged TAG_RESPONSE (knownValueCbor v)) d) (hv : v ≠ KV_UNKNOWN) :
+    ∃ m, Response.parse h e = .err m := by
+  have hs : subjectArid TAG_RESPONSE e = .err "dep:WrongType" := by
+    unfold subjectArid
+    rw [hsub]
+    simp [knownValueCbor, aridOfCbor?]
+  unfold Response.parse
+  simp only [hs, hsub]
+  split
+  · exact ⟨_, rfl⟩
+  · split
+    · exact ⟨_, rfl⟩
+    · split
+      · simp [knownValueCbor, TAG_KNOWN_VALUE, hv]
+      · exact ⟨_, rfl⟩
+example (er : Env) : ∃ m, Response.parse Toy.h0
+    (.node (newLeaf Toy.h0 (.tagged TAG_RESPONSE (knownValueCbor KV_OK))) [kvA Toy.h0 KV_ERROR er] ⟨0⟩)
+      = .err m :=
+  response_rejects_unknown_known_value_subject _ _ KV_OK _ rfl (by decide)
+
+/-! ### 5. events -/
+
+/-- `Envelope::from(Event)` never fails -/
+theorem event_toEnvelope_ok (h : Hash) (ev : Event) : ∃ e, Event.toEnvelope h ev = .ok e :=
+  ⟨_, event_toEnvelope_eq h ev⟩
+
+/-- **round trip**: content, identifier, note and (integral) date all come back.  Fractional
+dates are outside the model (see the header). -/
+theorem event_roundtrip (h : Hash) (kv : KVDistinct h) (ev : Event) (e : Env)
+    (hd : DistinctDigests (evAsserts h ev)) (hid : ev.id.length = 32)
+    (he : Event.toEnvelope h ev = .ok e) : Event.parse h e = .ok ev := by
+  rw [event_toEnvelope_eq] at he
+  injection he with he
+  subst he
+  have hs : (idSubject h TAG_EVENT ev.id).isNode = false := rfl
+  have hperm : (rebuild h (idSubject h TAG_EVENT ev.id)
+      ((evAsserts h ev).foldl normAdd [])).assertions.Perm (evAsserts h ev) := by
+    rw [rebuild_assertions h _ hs]
+    simpa using foldl_normAdd_perm_of_distinct (evAsserts h ev) (as := []) List.Pairwise.nil
+      (by simpa using hd)
+  exact event_parse_of_shape kv ev _ (rebuild_subject h _ hs) hperm hid
+/-- with the toy hash every event with a 32-byte id meets the hypotheses -/
+example (ev : Event) (hid : ev.id.length = 32) :
+    ∃ e, Event.toEnvelope Toy.h0 ev = .ok e ∧ Event.parse Toy.h0 e = .ok ev := by
+  obtain ⟨e, he⟩ := event_toEnvelope_ok Toy.h0 ev
+  exact ⟨e, he, event_roundtrip Toy.h0 Toy.kv0 ev e (Toy.h0_ev_distinct ev) hid he⟩
+example : ∃ e, Event.toEnvelope Toy.h0 Toy.ev0 = .ok e ∧ Event.parse Toy.h0 e = .ok Toy.ev0 := by
+  obtain ⟨e, he⟩ := event_toEnvelope_ok Toy.h0 Toy.ev0
+  exact ⟨e, he, event_roundtrip Toy.h0 Toy.kv0 Toy.ev0 e (Toy.h0_ev_distinct _) (by decide) he⟩
+
+/-- **shape**: subject `#6.40026(#6.40012(id))`; assertions exactly 'content': the text,
+'note' iff non-empty, 'date' iff present -/
+theorem event_shape (h : Hash) (ev : Event) (e : Env)
+    (hd : DistinctDigests (evAsserts h ev)) (he : Event.toEnvelope h ev = .ok e) :
+    e.subject = newLeaf h (.tagged TAG_EVENT (aridCbor ev.id)) ∧
+    (∀ a, a ∈ e.assertions ↔
+      a = newAssertion h (newKnownValue h KV_CONTENT) (newLeaf h (.text ev.content)) ∨
+      (ev.note ≠ [] ∧ a = newAssertion h (newKnownValue h KV_NOTE) (newLeaf h (.text ev.note))) ∨
+      (∃ d, ev.date = some d ∧ a = newAssertion h (newKnownValue h KV_DATE) (newLeaf h (dateCbor d)))) ∧
+    e.assertions.length = 1 + (if ev.note = [] then 0 else 1) + (if ev.date.isSome then 1 else 0) ∧
+    AscDigests e.assertions ∧
+    e.digest = h.ofDigests (e.subject.digest :: e.assertions.map Env.digest) := by
+  rw [event_toEnvelope_eq] at he
+  injection he with he
+  subst he
+  have hs : (idSubject h TAG_EVENT ev.id).isNode = false := rfl
+  have hperm : ((evAsserts h ev).foldl normAdd []).Perm (evAsserts h ev) := by
+    simpa using foldl_normAdd_perm_of_distinct (evAsserts h ev) (as := []) List.Pairwise.nil
+      (by simpa using hd)
+  rw [rebuild_subject h _ hs, rebuild_assertions h _ hs,
+    rebuild_digest h (foldl_normAdd_ne_nil _ (Or.inr (by simp [evAsserts])))]
+  refine ⟨rfl, ?_, ?_, foldl_normAdd_asc _ List.Pairwise.nil, rfl⟩
+  · intro a
+    rw [hperm.mem_iff]
+    simp only [evAsserts, List.mem_cons, mem_metaAsserts_iff, kvA]
+  · rw [hperm.length_eq]
+    simp only [evAsserts, List.length_cons, metaAsserts_length]
+    omega
+example (ev : Event) : ∃ e, Event.toEnvelope Toy.h0 ev = .ok e ∧
+    e.subject = newLeaf Toy.h0 (.tagged TAG_EVENT (aridCbor ev.id)) ∧ AscDigests e.assertions := by
+  obtain ⟨e, he⟩ := event_toEnvelope_ok Toy.h0 ev
+  obtain ⟨h1, _, _, h4, _⟩ := event_shape Toy.h0 ev e (Toy.h0_ev_distinct ev) he
+  exact ⟨e, he, h1, h4⟩
+
+/-- **through serialization** (C05) -/
+theorem event_roundtrip_bytes (h : Hash) (kv : KVDistinct h) (ev : Event) (e : Env)
+    (hd : DistinctDigests (evAsserts h ev)) (hid : ev.id.length = 32)
+    (hc : (Cbor.text ev.content).Valid) (hm : MetaEncodable ev.note ev.date)
+    (he : Event.toEnvelope h ev = .ok e) :
+    decode h (encode e) = .ok e ∧ Event.parse h e = .ok ev := by
+  refine ⟨?_, event_roundtrip h kv ev e hd hid he⟩
+  rw [event_toEnvelope_eq] at he
+  injection he with he
+  subst he
+  obtain ⟨h1, h2⟩ := chain_wellformed (h := h) (tag := TAG_EVENT) (k := KV_CONTENT) (id := ev.id)
+    (note := ev.note) (date := ev.date) (inv_leaf h (.text ev.content))
+    (by simp only [newLeaf, EncShape])
+  have h3 := chain_encodable (h := h) (tag := TAG_EVENT) (k := KV_CONTENT) (note := ev.note)
+    (date := ev.date) (o := newLeaf h (.text ev.content)) (by decide) (by decide) hid
+    (by simpa only [newLeaf, Encodable] using hc) hm
+  exact decode_encode h _ h1 h2 h3
+example : ∃ e, Event.toEnvelope Toy.h0 Toy.ev0 = .ok e ∧ decode Toy.h0 (encode e) = .ok e := by
+  obtain ⟨e, he⟩ := event_toEnvelope_ok Toy.h0 Toy.ev0
+  refine ⟨e, he, (event_roundtrip_bytes Toy.h0 Toy.kv0 Toy.ev0 e (Toy.h0_ev_distinct _) (by decide)
+    ?_ ?_ he).1⟩
+  · simp [Toy.ev0, Cbor.Valid, Cbor.utf8Valid]
+  · simp [MetaEncodable, Toy.ev0, Cbor.Valid, Cbor.utf8Valid]
+
+/-- whatever parses as an event has the subject `#6.40026(#6.40012(id))` with a 32-byte id -/
+theorem event_parse_subject (h : Hash) (e : Env) (ev : Event) (hp : Event.parse h e = .ok ev) :
+    ∃ d, e.subject = .leaf (.tagged TAG_EVENT (aridCbor ev.id)) d ∧ ev.id.length = 32 := by
+  obtain ⟨_, _, _, hid, _, _⟩ := event_parse_inv hp
+  exact subjectArid_ok_inv hid
+example : ∃ (e : Env) (d : Digest), e.subject = .leaf (.tagged TAG_EVENT (aridCbor Toy.ev0.id)) d := by
+  obtain ⟨e, he⟩ := event_toEnvelope_ok Toy.h0 Toy.ev0
+  obtain ⟨d, hd, _⟩ := event_parse_subject Toy.h0 e Toy.ev0
+    (event_roundtrip Toy.h0 Toy.kv0 Toy.ev0 e (Toy.h0_ev_distinct _) (by decide) he)
+  exact ⟨e, d, hd⟩
+
+/-- a subject under any other tag is rejected -/
+theorem event_rejects_wrong_tag (h : Hash) (e : Env) (t : Nat) (inner : Cbor) (d : Digest)
+    (hsub : e.subject = .leaf (.tagged t inner) d) (ht : t ≠ TAG_EVENT) :
+    ∃ m, Event.parse h e = .err m := by
+  refine res_err_of_not_ok (event_parse_noPanic h e) ?_
+  intro ev hp
+  obtain ⟨_, _, _, hid, _, _⟩ := event_parse_inv hp
+  rw [subjectArid_wrong_tag hsub ht] at hid
+  cases hid
+example : ∃ m, Event.parse Toy.h0 (idSubject Toy.h0 TAG_REQUEST Toy.id0) = .err m :=
+  event_rejects_wrong_tag _ _ TAG_REQUEST _ _ rfl (by decide)
+
+/-- no 'content' assertion: rejected -/
+theorem event_rejects_missing_content (h : Hash) (e : Env)
+    (hnc : assertionsWithPredicate e (newKnownValue h KV_CONTENT) = []) :
+    Event.parse h e = .err "NonexistentPredicate" := by
+  simp [Event.parse, objectForPredicate, assertionWithPredicate, hnc, Res.bind]
+example : Event.parse Toy.h0 (idSubject Toy.h0 TAG_EVENT Toy.id0) = .err "NonexistentPredicate" :=
+  event_rejects_missing_content _ _ rfl
+
+/-! ### 6. the parsers never panic
+
+The lookups `object_for_predicate` / `optional_object_for_predicate` unwrap
+`subject().as_object()` of an element that `assertions_with_predicate` selected because its
+subject is an assertion, so the `unwrap` cannot fail. -/
+
+theorem expression_parse_no_panic (e : Env) (exp : Option Ident) (s : String) :
+    Expression.parse e ≠ .panic s ∧ Expression.parseExpecting e exp ≠ .panic s :=
+  ⟨expression_parse_noPanic e s, expression_parseExpecting_noPanic e exp s⟩
+
+theorem request_parse_no_panic (h : Hash) (e : Env) (exp : Option Ident) (s : String) :
+    Request.parse h e exp ≠ .panic s :=
+  request_parse_noPanic h e exp s
+
+theorem response_parse_no_panic (h : Hash) (e : Env) (s : String) : Response.parse h e ≠ .panic s :=
+  response_parse_noPanic h e s
+
+theorem event_parse_no_panic (h : Hash) (e : Env) (s : String) : Event.parse h e ≠ .panic s :=
+  event_parse_noPanic h e s
+
+/-- the conversions to envelopes never panic either (they always succeed) -/
+theorem toEnvelope_no_panic (h : Hash) (r : Request) (v : Response) (ev : Event) (s : String) :
+    Request.toEnvelope h r ≠ .panic s ∧ Response.toEnvelope h v ≠ .panic s ∧
+      Event.toEnvelope h ev ≠ .panic s := by
+  rw [request_toEnvelope_eq, response_toEnvelope_eq, event_toEnvelope_eq]
+  simp
+
+/-! ### 7. the hypotheses are satisfiable, and the per-instance one is needed -/
+
+/-- the toy hash `b ↦ beNat b` satisfies `KVDistinct` -/
+example : KVDistinct ⟨fun b => ⟨beNat b⟩⟩ := ⟨by decide⟩
+
+/-- ... and the quantified form of the assertion hypothesis as well -/
+example (r : Request) (ev : Event) :
+    DistinctDigests (reqAsserts Toy.h0 r) ∧ DistinctDigests (evAsserts Toy.h0 ev) :=
+  ⟨Toy.h0_req_distinct r, Toy.h0_ev_distinct ev⟩
+
+/-- Without `DistinctDigests (reqAsserts h r)` the round trip fails silently: under a hash that
+is collision-free on the known values (`KVDistinct` holds) but gives the 'body' and the 'note'
+assertion the same digest, `add_assertion` drops the note as "already present" and the envelope
+parses — successfully — to a request without it.  (For SHA-256 this takes a collision; it is
+the price of de-duplicating assertions by digest, not a defect of the expression code.) -/
+theorem request_note_lost_on_collision :
+    ∃ (h : Hash) (r : Request) (e : Env), KVDistinct h ∧ r.id.length = 32 ∧
+      Expression.parse r.body.envelope = .ok r.body ∧ r.note ≠ [] ∧
+      Request.toEnvelope h r = .ok e ∧
+      Request.parse h e none = .ok { r with note := [] } := by
+  refine ⟨Toy.hC, Toy.rC, _, Toy.kvC, by decide, rfl, by decide, Toy.rC_envelope, ?_⟩
+  have hs : (idSubject Toy.hC TAG_REQUEST Toy.id0).isNode = false := rfl
+  refine request_parse_of_shape Toy.kvC { Toy.rC with note := [] } _ none
+    (rebuild_subject _ _ hs) ?_ (by decide) rfl (by simp)
+  rw [rebuild_assertions _ _ hs]
+  exact List.Perm.refl _
+
 end EnvVerif
